@@ -11,6 +11,6 @@ package types
 //@   panics_never
 //@   modifies nothing
 //@   ensures [found] (exists i int :: 0 <= i && i < len(a) && a[i].Key == permKey) ==> (exists i int :: 0 <= i && i < len(a) && a[i].Key == permKey && (forall j int :: 0 <= j && j < i ==> a[j].Key != permKey) && result == a[i].Addr)
-//@   ensures [absent] (forall i int :: 0 <= i && i < len(a) ==> a[i].Key != permKey) ==> result == nil
+//@   ensures [absent] (forall i int {a[i]} :: 0 <= i && i < len(a) ==> a[i].Key != permKey) ==> result == nil
 //@   loop 0 invariant 0 - 1 <= rangeindex && rangeindex < len(a)
 //@   loop 0 invariant forall j int :: 0 <= j && j <= rangeindex ==> a[j].Key != permKey
